@@ -6,7 +6,8 @@ CHECKS = {}
 def add(id, test, rule, quick, thorough, floors=None, race=False, level="exploration", assumptions=None, coverage_extra=None,
         note_current=False):
     CHECKS[id] = {"id": id, "test": test, "rule": rule, "quick": quick, "thorough": thorough, "floors": floors or {},
-                  "race": race, "note_current": note_current, "level": level, "assumptions": assumptions or [], "coverage_extra": coverage_extra or {}}
+                  # every check keeps the case in progress on disk: a dying process still yields a replay
+                  "race": race, "note_current": True, "level": level, "assumptions": assumptions or [], "coverage_extra": coverage_extra or {}}
 
 
 add("C19", "TestC19",
